@@ -185,6 +185,16 @@ def life3(r, facts):
     r.require(bool(dropped), 'State::drop/dropped-store', 'Status::Dropped is never stored in State::drop', f.where())
     hit = f.forward_paths_hit(start, rets, blockers=dropped)
     r.require(hit is None, 'State::drop/running-not-marked', 'a path on the Running edge returns without storing Status::Dropped (state leaks / completion touches a dead future)', f.where(hit[0]) if hit else '')
+    # check-then-act: the status test and the Dropped store happen under one continuous hold of the state lock
+    regs = fam.guard_regions(f, 'shared')
+    test_loc = f.term_loc(ve['si']['bb'])
+    discr_locs = [l for l, k, pl in f.defs.get(ve['si']['discr']['l'], []) if k == 'assign'] if 'l' in ve['si']['discr'] else []
+    ok_region = False
+    for reg in regs:
+        if all(d in reg['live'] for d in dropped) and (test_loc in reg['live'] or any(d in reg['live'] for d in discr_locs)):
+            ok_region = True
+    r.inst('status test and Dropped store under one lock region: %s (%d lock regions)' % (ok_region, len(regs)), f.where(test_loc))
+    r.require(ok_region, 'State::drop/check-then-act', 'the state lock is released between testing the status for Running and storing Status::Dropped: a final completion processed in between sets Done, which is then overwritten by Dropped and the state is never freed', f.where(test_loc))
     # Dropped is stored only on the Running edge
     for loc in dropped:
         r.require(f.edge_dominates(run_edge, loc), 'State::drop/dropped-elsewhere', 'Status::Dropped stored on a path where the status is not Running', f.where(loc))
@@ -377,6 +387,9 @@ def life6(r, facts):
         r.require(fresh, 'poll_inner/running-fresh', 'Running is not built from a fresh O::empty() result container: %s' % (e,), f.where(loc))
     hit = f.forward_paths_hit(start, rets + regs[0]['releases'], blockers=[l for l, e in running])
     r.require(hit is None, 'poll_inner/submit-without-running', 'after a successful add a path unlocks/returns without storing Status::Running', f.where(hit[0]) if hit else '')
+    # every status store of poll_inner happens while the state lock is held
+    for loc, v, e in status_stores(f):
+        r.require(loc in live, 'poll_inner/status-store-unlocked:%s' % v, 'Status::%s is stored after the state lock was released (races with the completion handler)' % v, f.where(loc))
     wl = [w for w in wakers if f.edge_dominates(ok_edge, w)]
     r.require(bool(wl), 'poll_inner/waker-store', 'no waker is stored on the successful-submit path', f.where(add_loc))
     for w in wl:
